@@ -437,6 +437,13 @@ def resolve_captures(expr, closure_fn, copies=True):
             for cand in (e[2], var, base):
                 if cand in names:
                     return pv.local(names[cand])
+            # edition-2021 disjoint captures: `_ref__var__field__field`
+            parts = [x for x in (e[2] or "").replace("_ref__", "", 1).split("__") if x]
+            if parts and parts[0] in names:
+                out = pv.local(names[parts[0]])
+                for fld in parts[1:]:
+                    out = ("field", out, fld, None)
+                return out
             return e
         return tuple(rec(x) if isinstance(x, tuple) else x for x in e)
     return rec(expr)
